@@ -670,16 +670,70 @@ fn sgr_table(ops: &[Value]) -> String {
             }
         })
         .collect();
-    let mut rows = vec![];
+    let decode_mod = |s: &[u8]| -> Option<surf_n_term::FaceModify> {
+        let mut d = TTYCommandDecoder::new();
+        let mut cur = std::io::Cursor::new(s);
+        match d.decode(&mut cur) {
+            Ok(Some(TerminalCommand::FaceModify(m))) => Some(m),
+            _ => None,
+        }
+    };
+    let mut rows: Vec<String> = vec![];
+    let mut row = |s: &[u8], f: &Face, g: &Face| {
+        let (a, b, c) = face_parts(f);
+        let (x, y, z) = face_parts(g);
+        let r = format!("({}, {}, {})", cbytes(s), face_coq_parts(a, b, c), face_coq_parts(x, y, z));
+        if !rows.contains(&r) {
+            rows.push(r);
+        }
+    };
+    // 1. the pairs (sequence, face before) the program actually goes through, followed in program order:
+    //    a sequence takes effect at its final byte, whatever was done to the parent in between
+    {
+        let mut cur = Face::default();
+        for op in ops {
+            let tty = op["via"].as_str() == Some("tty");
+            let items: Vec<Value> = if op["o"] == "sess" {
+                op["items"].as_array().cloned().unwrap_or_default()
+            } else if op["o"] == "write" && tty {
+                vec![json!({"b": op["chunks"].as_array().map(|a| a.iter().flat_map(vbytes).collect::<Vec<u8>>()).unwrap_or_default()})]
+            } else if op["o"] == "face" {
+                vec![op.clone()]
+            } else {
+                vec![]
+            };
+            let mut buf: Vec<u8> = vec![];
+            for it in items {
+                if it["o"] == "face" {
+                    cur = face_from(&it["face"]);
+                } else if it["b"].is_array() && tty {
+                    for b in vbytes(&it["b"]) {
+                        buf.push(b);
+                        if b == b'm' {
+                            if let Some(start) = buf.iter().rposition(|x| *x == 0x1b) {
+                                let seq = buf[start..].to_vec();
+                                if sgr_seqs(&seq).first() == Some(&seq) {
+                                    if let Some(m) = decode_mod(&seq) {
+                                        let g = m.apply(cur);
+                                        row(&seq, &cur, &g);
+                                        cur = g;
+                                    }
+                                }
+                            }
+                        }
+                    }
+                }
+            }
+        }
+    }
+    // 2. and, as far as a bounded table goes, every sequence on every face reachable from the faces the program sets
     let mut k = 0;
     while k < faces.len() && faces.len() < 120 {
         let f = faces[k];
         for (s, m) in seqs.iter().zip(mods.iter()) {
             if let Some(m) = m {
                 let g = m.apply(f);
-                let (a, b, c) = face_parts(&f);
-                let (x, y, z) = face_parts(&g);
-                rows.push(format!("({}, {}, {})", cbytes(s), face_coq_parts(a, b, c), face_coq_parts(x, y, z)));
+                row(s, &f, &g);
                 if !faces.iter().any(|h| face_parts(h) == face_parts(&g)) {
                     faces.push(g);
                 }
